@@ -252,9 +252,16 @@ pub fn run_invocation(sc: &Scenario, case: &mut Case, inv: &Invocation, tag: &st
             Ok(())
         });
     }
+    // the project directory is spelled differently from one invocation to the next (plain, with
+    // a trailing `/.`, through `<dir>/../<name>`): all of them are the same directory
+    let spelled = match (inv.hash_seed % 4, entry_dir.file_name()) {
+        (1, _) => entry_dir.join("."),
+        (2, Some(name)) => entry_dir.join("..").join(name),
+        _ => entry_dir.clone(),
+    };
     let out = cmd
         .arg("-p")
-        .arg(&entry_dir)
+        .arg(&spelled)
         .args(&inv.args)
         .env_clear()
         .env("ZSIM_PLAN", &plan_path)
